@@ -139,3 +139,70 @@ func (e *Engine) evalSyncMapBuiltin(c *evalCtx, name string, args []Expr) Val {
 	}
 	return v
 }
+
+// sort.Slice(x, less): the elements of the slice are permuted in place. The model forgets the element cells and
+// assumes that every new element equals some old element (a permutation function named by a fresh uninterpreted
+// symbol); that the result is ordered by less is NOT assumed (no obligation in this code base needs it yet).
+var sortSeq int
+
+func sortModels(name string) modelFn {
+	if name != "sort.Slice" && name != "sort.SliceStable" {
+		return nil
+	}
+	return func(e *Engine, st *State, fr *Frame, fn *ssa.Function, args []Val, in ssa.Instruction) (Val, bool) {
+		x := args[0]
+		if x.iTag().Op != OConst || typeOfTag[x.iTag().Val] == nil {
+			return Val{}, false
+		}
+		T := typeOfTag[x.iTag().Val]
+		sl, ok := T.Underlying().(*types.Slice)
+		if !ok {
+			return Val{}, false
+		}
+		s := e.unbox(st, x, T)
+		et := sl.Elem()
+		if in != nil {
+			e.checkAssignsRange(st, s, in)
+		}
+		sortSeq++
+		pname := fmt.Sprintf("uf!sortperm%d", sortSeq)
+		k := BoundCanon("k", 7, BV(64))
+		pk := App(pname, Ref64, s.sRef(), k)
+		pi := &PtrInfo{Ref: s.sRef(), Root: arrRoot(et), Path: []Step{{Idx: BVConst(0, 64)}}, Elem: et}
+		type cell struct {
+			key  string
+			srt  *Sort
+			rest []*Term // constant sub-indices (array-typed fields of the element)
+		}
+		var cells []cell
+		st.walk(pi, et, func(key string, idx []*Term, srt *Sort) {
+			cells = append(cells, cell{key, srt, append([]*Term(nil), idx[2:]...)})
+		})
+		olds := map[string]*Term{}
+		for _, c := range cells {
+			olds[c.key] = st.cellArr(c.key, 2+len(c.rest), c.srt)
+		}
+		e.havocRegion(st, et, s.sRef(), s.sOff(), s.sLen())
+		inRange := And(Sle(BVConst(0, 64), k), Slt(k, s.sLen()))
+		var eqs []*Term
+		eqs = append(eqs, Sle(BVConst(0, 64), pk), Slt(pk, s.sLen()))
+		for _, c := range cells {
+			nw := st.cellArr(c.key, 2+len(c.rest), c.srt)
+			ni := Concat(s.sRef(), Add(s.sOff(), k))
+			oi := Concat(s.sRef(), Add(s.sOff(), pk))
+			for _, r := range c.rest {
+				ni = Concat(ni, r)
+				oi = Concat(oi, r)
+			}
+			eqs = append(eqs, Eq(Select(nw, ni), Select(olds[c.key], oi)))
+		}
+		body := Implies(inRange, And(eqs...))
+		q := Forall([]*Term{k}, body)
+		if q.Op == OForall {
+			quantInfo[q] = &qInfo{Vars: []qVar{{"k", types.Typ[types.Int], []*Term{k}}}, Body: body}
+		}
+		st.assume(q)
+		st.note("sort.Slice: elements permuted (order by the less function not assumed)")
+		return Val{fn.Signature.Results(), nil}, true
+	}
+}
